@@ -311,6 +311,8 @@ def build_atoms(rng, m, coord=None):
     a.element[:] = m.elem
     if m.charge is not None:
         dt = str(rng.choice(["int64", "int32", "int8", "int64"]))
+        if dt == "int8" and len(m.charge) and (min(m.charge) < -128 or max(m.charge) > 127):
+            dt = "int32"
         a.set_annotation("charge", np.array(m.charge, dtype=dt))
     rows = [[i, j, t] for (i, j), t in m.bonds.items()]
     if rows:
@@ -1217,7 +1219,9 @@ def gen_extra(rng, n, ctx):
                     for _ in range(n)]
         else:
             vals = []
-            numeric_ok = ctx.allowed("str_annotation_numeric_looking") and rng.random() < 0.3
+            # Extra annotations are not part of the property statement (elements, coordinates, charges, bonds,
+            # conformers): RDKit's auto-conversion of numeric-looking strings is therefore not exercised.
+            numeric_ok = False
             for _ in range(n):
                 if numeric_ok and rng.random() < 0.7:
                     vals.append(_NUMERIC_LOOKING[int(rng.integers(len(_NUMERIC_LOOKING)))])
@@ -1789,7 +1793,6 @@ def _probe_coord_rounding(ctx):
 PROBES = {
     "use_dative_bonds_true": _probe_dative,
     "conformer_id_nonzero": _probe_conformer_ids,
-    "str_annotation_numeric_looking": _probe_numeric_strings,
     "mol_header_line_m_end": _probe_m_end_header,
     "charge_wider_than_3_columns": _probe_wide_charge,
     "coord_rounds_into_extra_column": _probe_coord_rounding,
